@@ -410,7 +410,7 @@ def gen_program(rng, idx, nplace):
         elif k == "follow":
             n = len([i for i in items if i["kind"] == "follow"])
             D = rng.choice([rf(rng, 0.5, 19), rf(rng, 20, 58), rf(rng, 0.5, 58), 20, 20.000001, 25.0, 0, 0.0, -0.0, 1e-12,
-                            -rf(rng, 0.5, 30), 5, 1e-3])
+                            -rf(rng, 0.5, 30), -rf(rng, 0.5, 30), -20, 5, 1e-3])
             it = dict(kind="follow", vid=newvid(), frm=rng.choice(["ego", "vec"]), x=rpos(rng), D=D, tag=f"fo{n}")
             if it["frm"] == "ego":
                 it["x"] = ego["pos"]
@@ -428,6 +428,8 @@ def gen_program(rng, idx, nplace):
             it = dict(kind="onpt", vid=newvid(), dims=rdims(rng), ct=rng.choice([1e-4, rf(rng, 0.01, 1.0), 0, 2.5]),
                       base=rng.choice([None, None, [rf(rng, -1, 1), rf(rng, -1, 1), rf(rng, -2, 2)]]),
                       how=rng.choice(["vec", "on-ps", "on-ps", "in-ps", "on-ps-plain"]), pts=[rpos(rng) for _ in range(rng.choice([1, 1, 3]))])
+            if fd["kind"] == "poly" and it["how"] == "on-ps" and rng.random() < 0.75:
+                it["how"] = "in-ps"     # (on + PolygonalVectorField is kept rare: known finding F24 rejects the whole program)
             bs = f", with baseOffset {tup(it['base'])}" if it["base"] is not None else ""
             pts = "[" + ", ".join(tup(p) for p in it["pts"]) + "]"
             if it["how"] == "vec":
@@ -480,7 +482,8 @@ def model_line(job, it, obs):
         o = O[str(it["vid"])]
         d = sub(it["p"], it["pos"]) if not it.get("away") else sub(it["pos"], it["p"])
         rho = math.hypot(*d)
-        return 5, it["pos"] + eul(it["par"]) + it["p"] + [1 if it.get("away") else 0] + eul(o["ypr"]) + [rho] + ha(it.get("h", 0.0))
+        away = 1 if (it.get("away") or k == "apparently") else 0   # apparently facing: line of sight from P to the object
+        return 5, it["pos"] + eul(it["par"]) + it["p"] + [away] + eul(o["ypr"]) + [rho] + ha(it.get("h", 0.0))
     if k == "scalar":
         P = obs["params"]
         t = it["tag"]
@@ -679,6 +682,10 @@ def evaluate(c, job, it, obs, m):
             corr("fromEuler (harness reference)", tq, m[4:8])
         if not qclose(o["q"], tq):
             oracle("facing", "`facing O` does not yield O as the global orientation", impl=o["q"], documented=tq)
+        ed = euler_defect(o)
+        if ed:
+            oracle("euler", "yaw/pitch/roll stored by `facing O` are not the intrinsic ZXY angles of the local rotation: " + ed["what"],
+                   impl=ed["impl"], documented=ed["documented"], ypr=o["ypr"])
         c.hist("facing:" + ("heading" if it["target"][1:] == [0.0, 0.0] else "euler"))
         return it["par"] != [0.0, 0.0, 0.0]
     if k in ("toward", "apparently"):
@@ -709,16 +716,28 @@ def evaluate(c, job, it, obs, m):
             c.hist(f"toward:{'directly' if it['directly'] else 'yaw'}:{'away' if it['away'] else 'toward'}")
         else:
             los = sub(it["pos"], it["p"])
-            if not close(m[12], 0.0, norm(los)) or not (m[13] > 0):
-                corr("yaw chosen by `apparently facing H from V` is not H plus the azimuth of the line of sight", o["ypr"], m[12:14])
+            glob = it["par"] == [0.0, 0.0, 0.0]
+            old_ok = close(m[12], 0.0, norm(los)) and m[13] > 0      # yaw - H = azimuth of the line of sight in the global frame
+            new_ok = close(m[14], 0.0, norm(los)) and m[15] > 0      # ... in the parent frame (repaired behaviour, F21)
+            # independent float computation of the same two relations
             az = norm_angle(math.atan2(los[1], los[0]) - math.pi / 2)
-            if not close(norm_angle(o["ypr"][0] - az - it["h"]), 0.0):
-                corr("`apparently facing H from V`: local yaw is not H plus the azimuth of the line of sight", o["ypr"][0], az + it["h"])
-            # documented: the object's (global) heading relative to the line of sight is H, whatever the parent
-            if not close(norm_angle(o["heading"] - az - it["h"]), 0.0):
-                oracle("apparently-facing-parent",
-                       "`apparently facing H from V` with a non-global parentOrientation: the object's heading relative to the line of sight is not H (parentOrientation is ignored)",
-                       impl_apparent_heading=norm_angle(o["heading"] - az), documented=it["h"], parent_is_global=(it["par"] == [0.0, 0.0, 0.0]))
+            ll = q_rot(q_conj(o["pq"]), los)
+            azl = norm_angle(math.atan2(ll[1], ll[0]) - math.pi / 2)
+            o_old = close(norm_angle(o["ypr"][0] - az - it["h"]), 0.0)
+            o_new = close(norm_angle(o["ypr"][0] - azl - it["h"]), 0.0)
+            if (new_ok != o_new or old_ok != o_old) and math.hypot(ll[0], ll[1]) > 1e-3 * norm(los):
+                corr("`apparently facing H from V`: model relation and harness relation disagree", [o_old, o_new], [old_ok, new_ok])
+            if not new_ok and not o_new:
+                if old_ok and not glob:
+                    # documented: heading H with respect to the line of sight; yaw is relative to parentOrientation
+                    oracle("apparently-facing-parent",
+                           "`apparently facing H from V` with a non-global parentOrientation: the yaw is H plus the azimuth of the line of sight in the GLOBAL frame, "
+                           "so the object's heading relative to the line of sight is not H (parentOrientation is ignored)",
+                           impl_yaw=o["ypr"][0], documented_yaw=norm_angle(azl + it["h"]), parent_is_global=glob)
+                else:
+                    corr("yaw chosen by `apparently facing H from V` is not H plus the azimuth of the line of sight (in the parent frame)", o["ypr"], m[12:16])
+            if o["ypr"][1] != 0.0 or o["ypr"][2] != 0.0:
+                oracle("facing", "`apparently facing` changed pitch or roll", impl=o["ypr"])
             c.hist("apparently:" + it["frm"])
         return it["par"] != [0.0, 0.0, 0.0]
     if k == "scalar":
@@ -792,6 +811,10 @@ def evaluate(c, job, it, obs, m):
         if not qclose(o["q"], tq):
             oracle("facing-field", "`facing <vector field>` does not yield the field's value at the object's position as the global orientation",
                    impl=o["q"], documented=tq, field_value=it["F"], parentOrientation=o["pq"])
+        ed = euler_defect(o)
+        if ed:
+            oracle("euler", "yaw/pitch/roll stored by `facing <field>` are not the intrinsic ZXY angles of the local rotation: " + ed["what"],
+                   impl=ed["impl"], documented=ed["documented"], ypr=o["ypr"])
         if it["how"] != "at":
             docq = P["op"]["q"] if "op" in it["how"] else ego_i["q"]
             if not qclose(o["pq"], docq):
@@ -902,6 +925,21 @@ def evaluate(c, job, it, obs, m):
     raise ValueError(k)
 
 
+def euler_defect(o):
+    """defining equations of the intrinsic ZXY Euler angles (C07_euler_matrix) on an object's stored yaw/pitch/roll
+    against its stored quaternions: returns a description of the first one violated, or None"""
+    y, p, r = o["ypr"]
+    loc = q_mul(q_conj(o["pq"]), o["q"])
+    f, x, z = q_rot(loc, [0.0, 1.0, 0.0]), q_rot(loc, [1.0, 0.0, 0.0]), q_rot(loc, [0.0, 0.0, 1.0])
+    want = [-math.sin(y) * math.cos(p), math.cos(y) * math.cos(p), math.sin(p)]
+    if not vclose(f, want):
+        return dict(what="forward axis of parent^-1 * orientation is not (-sin yaw cos pitch, cos yaw cos pitch, sin pitch)", impl=f, documented=want)
+    if not close(x[2], -math.cos(p) * math.sin(r)) or not close(z[2], math.cos(p) * math.cos(r)):
+        return dict(what="z components of the right/up axes are not (-cos pitch sin roll, cos pitch cos roll)", impl=[x[2], z[2]],
+                    documented=[-math.cos(p) * math.sin(r), math.cos(p) * math.cos(r)])
+    return None
+
+
 def ego_nontrivial(job):
     e = job["ego"]
     return any(e["par"][1:]) or any(e["loc"][1:])
@@ -915,12 +953,16 @@ def strip(job):
 def main():
     c = Check(PID, "proof")
     c.cov["rule"] = ("Scenic programs from a seeded generator: an ego Object and an OrientedPoint with positions 4..40 m away from the "
-                     "origin on every axis, non-global parentOrientation and arbitrary local yaw/pitch/roll, random box sizes; then "
-                     "placements (six directional specifiers x {Object, OrientedPoint, vector} x {no by, scalar, vector} x {aligned, rotated}, "
-                     "beyond x {scalar, vector} x {from default/ego/OrientedPoint/vector}, offset by/along, facing family) and operator "
-                     "values. A case is one placement/operator group of one generated scene; it is non-trivial when the frames involved "
-                     "are tilted out of the XY plane (pitch or roll of parent or local angles non-zero), so that frame mistakes are "
-                     "visible; distinct by hash of (program, item)")
+                     "origin on every axis, non-global parentOrientation and arbitrary local yaw/pitch/roll, random box sizes, one python-defined "
+                     "vector field (constant heading / Euler tuple / Orientation, Euler angles affine in the position, 4-cell polygonal); then "
+                     "placements (six directional specifiers x {Object, OrientedPoint, vector} x {no by, scalar, vector, degenerate distribution} x "
+                     "{aligned, rotated}, beyond x {scalar, vector} x {from default/ego/OrientedPoint/vector}, offset by/along, facing family, "
+                     "facing <field> [relative to H] under explicit or inherited parentOrientation, offset along <field>, following/follow, "
+                     "on <Object>/<vector>/<point set [oriented by the field]>, in <oriented point set>) and operator values; every numeric "
+                     "argument takes boundary values (0, 0.0, -0.0, +-1e-12, negative, +-1e4) with probability 0.15-0.35. A case is one "
+                     "placement/operator group of one generated scene; it is non-trivial when the frames involved are tilted out of the XY "
+                     "plane (pitch or roll of parent, local angles or field value non-zero), so that frame mistakes are visible; distinct by "
+                     "hash of (program, item)")
     import time
     T = [time.time()]
 
@@ -936,7 +978,7 @@ def main():
     exe = common.build_ocaml(PID)
     lap("extraction")
     quick = c.tier == "quick"
-    nprog = int(os.environ.get("VERIF_C07_NPROG", 110 if quick else 4300))
+    nprog = int(os.environ.get("VERIF_C07_NPROG", 110 if quick else 2500))
     rng = c.rng
     jobs = []
     corpus_dir = os.path.join(common.VERIF, "corpus", PID)
